@@ -19,6 +19,7 @@ import (
 	"testing"
 
 	"github.com/indexsupply/shovel/dig"
+	"github.com/indexsupply/shovel/eth"
 	"github.com/indexsupply/shovel/jrpc2"
 	"github.com/indexsupply/shovel/wctx"
 	"github.com/indexsupply/shovel/wpg"
@@ -48,13 +49,20 @@ func TestVerifSharedLogsBounded(t *testing.T) {
 		}
 		return ig
 	}
-	rowsOf := func(client *jrpc2.Client, ig dig.Integration) (string, error) {
+	ctx := wctx.WithSrcName(wctx.WithChainID(context.Background(), 7), "fake")
+	getOf := func(client *jrpc2.Client, ig dig.Integration) ([]eth.Block, error) {
 		filter := ig.Filter()
-		ctx := wctx.WithSrcName(wctx.WithChainID(context.Background(), 7), "fake")
-		blocks, err := client.Get(ctx, ts.URL, &filter, pStart, 2)
+		return client.Get(ctx, ts.URL, &filter, pStart, 2)
+	}
+	var insertOf func(ig dig.Integration, blocks []eth.Block) (string, error)
+	rowsOf := func(client *jrpc2.Client, ig dig.Integration) (string, error) {
+		blocks, err := getOf(client, ig)
 		if err != nil {
 			return "", err
 		}
+		return insertOf(ig, blocks)
+	}
+	insertOf = func(ig dig.Integration, blocks []eth.Block) (string, error) {
 		var conn fakeConn
 		if _, err := ig.Insert(ctx, &sync.Mutex{}, &conn, blocks); err != nil {
 			return "", err
@@ -69,7 +77,11 @@ func TestVerifSharedLogsBounded(t *testing.T) {
 		}
 		var out []string
 		for _, r := range conn.rows {
-			out = append(out, fmt.Sprintf("%s/%s/%s=%s", render(r[col("c_block_num")]), render(r[col("c_tx_idx")]), render(r[col("c_log_idx")]), render(r[col("c_value")])))
+			line := fmt.Sprintf("%s/%s/%s=%s", render(r[col("c_block_num")]), render(r[col("c_tx_idx")]), render(r[col("c_log_idx")]), render(r[col("c_value")]))
+			if k := col("c_tx_status"); k >= 0 {
+				line += " status=" + render(r[k]) // a receipt field: the node reports 1
+			}
+			out = append(out, line)
 		}
 		sort.Strings(out)
 		return strings.Join(out, " "), nil
@@ -94,7 +106,11 @@ func TestVerifSharedLogsBounded(t *testing.T) {
 				for i := uint64(0); i < pTxs; i++ {
 					for j := uint64(0); j < 2; j++ {
 						if name == "U" || name == "R" || (name == "A") == (j == 0) {
-							want = append(want, fmt.Sprintf("%d/%d/%d=%d", n, i, 2*i+1+j, 5000+100*n+10*i+j))
+							line := fmt.Sprintf("%d/%d/%d=%d", n, i, 2*i+1+j, 5000+100*n+10*i+j)
+							if name == "R" {
+								line += " status=1"
+							}
+							want = append(want, line)
 						}
 					}
 				}
@@ -106,7 +122,7 @@ func TestVerifSharedLogsBounded(t *testing.T) {
 				fmt.Printf("BOUNDED-FAIL integration %s (%s) on a client of its own stores %s, the node reports %s\n", name, extra, r, strings.Join(want, " "))
 			}
 		}
-		for _, order := range []string{"ABA", "BAB", "ABUAB", "UAB", "BUA", "AUB", "AR", "BRA", "RAB", "ABR"} {
+		for _, order := range []string{"ABA", "BAB", "ABUAB", "UAB", "BUA", "AUB", "AR", "BRA", "RAB", "ABR", "RR", "ARR", "UR", "URU", "URR"} {
 			cases++
 			client := jrpc2.New(ts.URL)
 			for k, c := range order {
@@ -117,6 +133,33 @@ func TestVerifSharedLogsBounded(t *testing.T) {
 					if fails <= 10 {
 						fmt.Printf("BOUNDED-FAIL shared client (%s), requests %s: request %d of integration %s stores %q (err=%v), an uncached client gives %q\n", extra, order, k+1, name, r, err, alone[name])
 					}
+				}
+			}
+		}
+	}
+	// interleaved steps: one integration loads, another loads the same range,
+	// then the first inserts what it loaded (tasks run concurrently; a later
+	// load must not take away or add to what an earlier one was handed)
+	for _, extra := range []string{"block_time", "tx_input"} {
+		igs := map[string]dig.Integration{"A": mk(token0, extra), "B": mk(token1, extra), "U": mk("", extra), "R": mk("", extra, "tx_status")}
+		for _, pair := range []string{"AB", "BA", "AU", "UA", "AR", "RA", "UR", "RU"} {
+			first, second := igs[pair[:1]], igs[pair[1:]]
+			alone, err := rowsOf(jrpc2.New(ts.URL), first)
+			if err != nil {
+				t.Fatal(err)
+			}
+			cases++
+			client := jrpc2.New(ts.URL)
+			b1, err1 := getOf(client, first)
+			_, err2 := getOf(client, second)
+			var got string
+			if err1 == nil && err2 == nil {
+				got, err1 = insertOf(first, b1)
+			}
+			if err1 != nil || err2 != nil || got != alone {
+				fails++
+				if fails <= 10 {
+					fmt.Printf("BOUNDED-FAIL shared client (%s): %s loads, %s loads the same range, then %s inserts: stores %q (err=%v/%v), alone it stores %q\n", extra, pair[:1], pair[1:], pair[:1], got, err1, err2, alone)
 				}
 			}
 		}
